@@ -4,7 +4,8 @@
      H <decimal n>                   -> H <evaluator recursion depth of a left-associative chain of n operators>
      X <codes,codes,..> <rounds>     -> like D, for the alternating nest (codes: 0 #if block, 1 bracket / expression entry,
                                         2 unary, 3 asm block) repeated <rounds> times
-     B <sized><far_outp><place><fill> <[-]hex magnitude>  -> like F, for the #bankdef field combination *)
+     B <sized><far_outp><place><fill> <[-]hex magnitude>  -> like F, for the #bankdef field combination
+     T <path> <hex n> <hex k>        -> like F, for the position-advancing path `path` at position 2^64 - k *)
 let fam name : (z -> out res) option = match name with
   | "shl_amount" -> Some f_shl_amount | "shl_amount_zero" -> Some f_shl_amount_zero | "shr_amount" -> Some f_shr_amount
   | "slice_left" -> Some f_slice_left | "slice_right" -> Some f_slice_right | "slice_both" -> Some f_slice_both
@@ -70,6 +71,11 @@ let () = iter_lines (fun line ->
     let bit i = k.[i] = '1' in
     let place = nat_of_int (Char.code k.[2] - 48) in
     (match f_bank_combo (bit 0) (bit 1) (bit 3) place (z_of_hex m) with
+     | Ok (w, x) -> print_endline ("OK " ^ hex_of_n w ^ " " ^ (match x with Some v -> hex_of_z v | None -> "-"))
+     | Err -> print_endline "ERR"
+     | Panic -> print_endline "PANIC")
+  | ["T"; path; n; k] ->
+    (match f_near_top (nat_of_int (int_of_string path)) (z_of_hex n) (z_of_hex k) with
      | Ok (w, x) -> print_endline ("OK " ^ hex_of_n w ^ " " ^ (match x with Some v -> hex_of_z v | None -> "-"))
      | Err -> print_endline "ERR"
      | Panic -> print_endline "PANIC")
